@@ -323,6 +323,9 @@ def part_cross(ctx):
         ('whitelist+blacklist', lambda: M.FormulaGrader(whitelist=['sin'], blacklist=['cos'])),
         ('unknown blacklist entry', lambda: M.FormulaGrader(blacklist=['nosuchfunction'])),
         ('unknown whitelist entry', lambda: M.FormulaGrader(whitelist=['nosuchfunction'])),
+        ('array function blacklisted in a FormulaGrader (not one of ITS defaults)', lambda: M.FormulaGrader(blacklist=['det'])),
+        ('MatrixGrader user function overrides an array function', lambda: M.MatrixGrader(answers='[1,2]', user_functions={'det': abs})),
+        ('MatrixGrader user function overrides a default function', lambda: M.MatrixGrader(answers='[1,2]', user_functions={'sin': abs})),
         ('whitelist [None] + blacklist', lambda: M.FormulaGrader(whitelist=[None], blacklist=['cos'])),
         ('whitelist [None] + unknown blacklist entry', lambda: M.FormulaGrader(whitelist=[None], blacklist=['nosuchfunction'])),
         ('unknown entry after a known one (blacklist)', lambda: M.FormulaGrader(blacklist=['sin', 'nosuchfunction'])),
@@ -400,6 +403,14 @@ def part_cross(ctx):
         ('grouping', lambda: M.ListGrader(answers=[['a', 'b'], ['c', 'd']], subgraders=M.ListGrader(subgraders=S()), grouping=[1, 1, 2, 2])),
         ('nested delimiters distinct', lambda: M.SingleListGrader(subgrader=M.SingleListGrader(subgrader=S(), delimiter=','), delimiter=';')),
         ('deleted default constant', lambda: M.FormulaGrader(user_constants={'pi': None}, variables=['pi'])),
+        # each grader's own default function table is the reference: MatrixGrader adds norm, trans, det, ... to it
+        ('MatrixGrader blacklists an array function', lambda: M.MatrixGrader(answers='[1,2]', blacklist=['det'])),
+        ('MatrixGrader whitelists array functions', lambda: M.MatrixGrader(answers='[1,2]', whitelist=['trans', 'norm', 'sin'])),
+        ('MatrixGrader overrides an array function, warnings suppressed', lambda: M.MatrixGrader(answers='[1,2]', user_functions={'det': abs}, suppress_warnings=True)),
+        # documented: subgrader=None means the default NumericalGrader
+        ('IntervalGrader(subgrader=None), keywords', lambda: M.IntervalGrader(answers='[1,2)', subgrader=None)(None, '[1,2)')),
+        ('IntervalGrader(subgrader=None), dictionary', lambda: M.IntervalGrader({'answers': '[1,2)', 'subgrader': None})(None, '[1,2)')),
+        ('IntervalGrader(subgrader=None) without answers', lambda: M.IntervalGrader(subgrader=None)('[1,2)', '[1,2)')),
     ]
     for label, mk in good:
         k, v = D.run_impl(mk)
